@@ -180,9 +180,33 @@ def _check_state(c, hist):
         why = moment_incoherent(m)
         if why:
             return why
-    # a later append must land where it would on the rebuilt circuit: after every conflicting op
-    for probe in _alphabet():
-        c2 = c.copy() if False else None
+    return _frozen_views(c)
+
+
+def _frozen_views(c):
+    """The frozen view and the views derived from it (tagged, tagged again, untagged) answer as frozen circuits rebuilt from the same
+    moments and tags would — also after the source view has already answered (and cached) every query."""
+    import cirq
+    import sympy
+
+    def obs(f):
+        return dict(qubits=f.all_qubits(), mkeys=f.all_measurement_key_objs(), mnames=f.all_measurement_key_names(), par=cirq.is_parameterized(f), names=cirq.parameter_names(f),
+                    meas=cirq.is_measurement(f), ckeys=cirq.control_keys(f), n=len(f), tags=f.tags, ops=tuple(f.all_operations()), has_u=cirq.has_unitary(f), unfrozen=f.unfreeze(), h=hash(f))
+
+    fz = c.freeze()
+    chain = [("freeze()", fz)]
+    obs(fz)  # the source view answers everything first
+    t1 = fz.with_tags(sympy.Symbol("theta_tag"))
+    chain.append(("freeze().with_tags(Symbol)", t1))
+    obs(t1)
+    t2 = t1.with_tags("plain")
+    chain += [("...with_tags(Symbol).with_tags('plain')", t2), ("...untagged", t2.untagged), ("freeze().with_tags('plain')", fz.with_tags("plain"))]
+    for name, f in chain:
+        rebuilt = cirq.FrozenCircuit(f.moments, tags=f.tags)
+        o1, o2 = obs(f), obs(rebuilt)
+        if o1 != o2 or not (f == rebuilt):
+            bad = [k for k in o1 if o1[k] != o2[k]] or ["=="]
+            return f"frozen view {name}: {bad} differ from a frozen circuit rebuilt from the same moments and tags ({ {k: (o1[k], o2[k]) for k in bad if k in o1} })"
     return None
 
 
@@ -619,6 +643,12 @@ def standin_structural_ops(tier, seed):
         fz = c.freeze()
         if fz.unfreeze() != c or list(fz.moments) != list(c.moments) or hash(fz) != hash(cirq.FrozenCircuit(c.moments)) or fz != cirq.FrozenCircuit(c.moments):
             bad("freeze / unfreeze changes the circuit (or equal frozen circuits hash differently)", a=c)
+        # the frozen view's answers do not depend on what a caller did with an earlier answer
+        u_own = cirq.unitary(cirq.FrozenCircuit(c.moments))
+        u_first = cirq.unitary(fz)
+        u_first *= 2
+        if not np.allclose(cirq.unitary(fz), u_own, atol=1e-7) or (len(fz.all_qubits()) and not np.allclose(cirq.unitary(cirq.CircuitOperation(fz)), u_own, atol=1e-7)):
+            bad("the unitary of a frozen circuit changes after a caller modified the array returned earlier", a=c)
         # ragged concatenation: same action, nothing lost, each qubit's operations in order
         cases += 1
         cr = cirq.Circuit.concat_ragged(c, d)
